@@ -1210,6 +1210,25 @@ func (in *inliner) expand(ce *ast.CallExpr, g *types.Func, lhs []ast.Expr, tok t
 	}
 	label := pfx + "end"
 	body := copyNode(fd.Body).(*ast.BlockStmt)
+	// labels that earlier inlining left in the helper's body: every copy gets its own
+	{
+		ren := map[string]string{}
+		ast.Inspect(body, func(n ast.Node) bool {
+			if ls, ok := n.(*ast.LabeledStmt); ok {
+				ren[ls.Label.Name] = fmt.Sprintf("%sl%d_%s", pfx, len(ren), ls.Label.Name)
+				ls.Label = ast.NewIdent(ren[ls.Label.Name])
+			}
+			return true
+		})
+		if len(ren) > 0 {
+			ast.Inspect(body, func(n ast.Node) bool {
+				if bs, ok := n.(*ast.BranchStmt); ok && bs.Label != nil && ren[bs.Label.Name] != "" {
+					bs.Label = ast.NewIdent(ren[bs.Label.Name])
+				}
+				return true
+			})
+		}
+	}
 	usedGoto := false
 	bad := ""
 	// deferred calls of the helper: registered where the defer statement stands, run after
@@ -1514,7 +1533,12 @@ func deepCopy(v reflect.Value) reflect.Value {
 				continue
 			}
 			if v.Field(i).Type() == posType {
-				continue // zero position
+				// zero position - except where the validity of the position carries meaning:
+				// `f(xs...)`, `type T = U`
+				if n := v.Type().Field(i).Name; (n == "Ellipsis" && v.Type() == reflect.TypeOf(ast.CallExpr{})) || (n == "Assign" && v.Type() == reflect.TypeOf(ast.TypeSpec{})) {
+					nv.Field(i).Set(v.Field(i))
+				}
+				continue
 			}
 			nv.Field(i).Set(deepCopy(v.Field(i)))
 		}
